@@ -315,7 +315,8 @@ def handler : Handler := fun op j =>
       ("flags", jArr (Scico.ProxTables.expectedFlags.map fun r => jArr [jS r.1, jS r.2.1, jS r.2.2.1, jS r.2.2.2.1, jS r.2.2.2.2])),
       ("dispatch", jArr (Scico.ProxTables.expectedDispatch.map fun r => jArr [jS r.1, jS r.2.1, jArr (r.2.2.map jS)])),
       ("bases", jArr (Scico.ProxTables.expectedBases.map fun r => jArr [jS r.1, jS r.2])),
-      ("relevant", jArr (Scico.ProxTables.relevantCallables.map jS))]))
+      ("relevant", jArr (Scico.ProxTables.relevantCallables.map jS)),
+      ("helpers", jArr (Scico.ProxTables.expectedHelpers.map fun r => jArr [jS r.1, jS r.2]))]))
   | "param_after" => do
     let p0 ← fFloat? j "p0"; let l ← fFloats? j "assigns"
     some (ok (jObj [("p", jF (paramAfter p0 l))]))
